@@ -130,6 +130,47 @@ def install():
     ex.time = SIM_TIME
 
 
+# ---- identity hashes ---------------------------------------------------------------------------
+# Repo classes without __hash__ hash by address: the iteration order of a set of DataLocation /
+# Token / Port objects would depend on the heap state of the process (what ran before), which is a
+# source of nondeterminism the simulator must own. Every such class gets a hash assigned in order
+# of first use within the run (and permuted by the tape like task hashes); the registry keeps the
+# object alive until the run ends, so an address is never reused within a run.
+_ID_REG: dict = {}
+_ID_PARAMS = [1, 0]
+_ID_PATCHED: set = set()
+_ID_NMODS = 0
+
+
+def _identity_hash(self):
+    e = _ID_REG.get(id(self))
+    if e is None:
+        e = _ID_REG[id(self)] = (self, ((len(_ID_REG) + 1) * _ID_PARAMS[0] + _ID_PARAMS[1]) & 0x3FFFFFFF)
+    return e[1]
+
+
+def reset_identity_hashes(mult, salt):
+    global _ID_NMODS
+    _ID_REG.clear()
+    _ID_PARAMS[0], _ID_PARAMS[1] = mult, salt
+    if not _installed or len(sys.modules) == _ID_NMODS:
+        return
+    _ID_NMODS = len(sys.modules)
+    import inspect
+
+    for name, mod in list(sys.modules.items()):
+        if mod is None or not name.startswith("streamflow"):
+            continue
+        for cls in list(vars(mod).values()):
+            if (inspect.isclass(cls) and cls not in _ID_PATCHED and getattr(cls, "__module__", "").startswith("streamflow")
+                    and cls.__hash__ is object.__hash__ and not issubclass(cls, BaseException)):
+                try:
+                    cls.__hash__ = _identity_hash
+                    _ID_PATCHED.add(cls)
+                except TypeError:
+                    pass
+
+
 def install_time(*modules):
     for m in modules:
         m.time = SIM_TIME
